@@ -19,6 +19,7 @@ func mixSpec(withInit bool) kit.Spec {
 		{ID: 3, Life: "scoped", Outs: []kit.Out{{T: "D3"}}, Group: "g"},
 		{ID: 4, Life: "scoped", Outs: []kit.Out{{T: "D3"}}, Group: "g", Deps: []kit.Dep{{T: "D1"}}},
 		{ID: 5, Life: "scoped", Outs: []kit.Out{{T: "P5"}}, Name: "k"},
+		{ID: 7, Life: "scoped", Outs: []kit.Out{{T: "P4"}}, Deps: []kit.Dep{{T: "D1"}, {T: "D2"}, {T: "D0"}}},
 	}}
 	if withInit {
 		s.Regs = append(s.Regs, kit.Reg{ID: 6, Life: "scoped", Kind: "void", Deps: []kit.Dep{{T: "D1"}}})
